@@ -1,5 +1,193 @@
-(* TEMPORARY while iterating; replaced by the real proof *)
+(* C07 — the SWAR population count of hashmap.go computes the number of set
+   bits of every 32-bit value.
+
+   Proof: u = a + 2^16 b.  The first four steps act on the two halves
+   independently ([step_lin]: [&] and [>>] distribute over the sum of a value
+   below 2^16 and a multiple of 2^16), the facts needed about one half are
+   checked for all 2^16 values of that half by vm_compute, and the fifth step
+   adds the two half counts. *)
+From Coq Require Import ZifyBool ZifyNat ZifyN.
 From verif Require Import lib.Base model.C07.
 Open Scope N_scope.
+
+(* ---- a + 2^n b, bitwise ---- *)
+Lemma cat_bits n a b i : a < 2 ^ n ->
+  N.testbit (a + 2 ^ n * b) i = if i <? n then N.testbit a i else N.testbit b (i - n).
+Proof.
+  intros Ha. assert (H2 : 2 ^ n <> 0) by (apply N.pow_nonzero; discriminate).
+  destruct (N.ltb_spec i n) as [L|L].
+  - rewrite <- (N.mod_pow2_bits_low (a + 2 ^ n * b) n i L).
+    rewrite (N.mul_comm (2 ^ n) b), N.mod_add, N.mod_small by assumption. reflexivity.
+  - replace i with (i - n + n) at 1 by lia. rewrite <- N.div_pow2_bits.
+    rewrite (N.mul_comm (2 ^ n) b), N.div_add, N.div_small by assumption. reflexivity.
+Qed.
+
+Lemma lt_pow2_testbit u n : u < 2 ^ n -> forall i, n <= i -> N.testbit u i = false.
+Proof.
+  intros H i Hi. destruct (N.eq_dec u 0) as [->|Hu]; [apply N.bits_0|].
+  apply N.bits_above_log2. apply N.log2_lt_pow2 in H; lia.
+Qed.
+
+Lemma testbit_lt_pow2 u n : (forall i, n <= i -> N.testbit u i = false) -> u < 2 ^ n.
+Proof.
+  intros H. destruct (N.eq_dec u 0) as [->|Hu]; [apply N.neq_0_lt_0, N.pow_nonzero; discriminate|].
+  apply N.log2_lt_pow2; [lia|]. destruct (N.lt_ge_cases (N.log2 u) n) as [L|L]; [exact L|].
+  specialize (H _ L). rewrite N.bit_log2 in H by exact Hu. discriminate.
+Qed.
+
+Lemma land_lt a m n : a < 2 ^ n -> N.land a m < 2 ^ n.
+Proof.
+  intros H. apply testbit_lt_pow2. intros i Hi.
+  rewrite N.land_spec, (lt_pow2_testbit a n H i Hi). reflexivity.
+Qed.
+
+Lemma land_cat n a b m : a < 2 ^ n ->
+  N.land (a + 2 ^ n * b) m = N.land a m + 2 ^ n * N.land b (N.shiftr m n).
+Proof.
+  intros Ha. apply N.bits_inj. intros i.
+  rewrite N.land_spec, !cat_bits by (assumption || (apply land_lt; assumption)).
+  destruct (N.ltb_spec i n) as [L|L]; rewrite N.land_spec; [reflexivity|].
+  rewrite N.shiftr_spec'. replace (i - n + n) with i by lia. reflexivity.
+Qed.
+
+Lemma shiftr_cat n a b w : w <= n ->
+  N.shiftr (a + 2 ^ n * b) w = N.shiftr a w + 2 ^ (n - w) * b.
+Proof.
+  intros Hw. rewrite !N.shiftr_div_pow2.
+  replace (2 ^ n * b) with (2 ^ (n - w) * b * 2 ^ w).
+  - rewrite N.div_add by (apply N.pow_nonzero; discriminate). reflexivity.
+  - replace n with (n - w + w) at 2 by lia. rewrite N.pow_add_r. lia.
+Qed.
+
+Definition step (w m x : N) : N := N.land x m + N.land (N.shiftr x w) m.
+
+(* the step distributes over (value below 2^16) + (multiple of 2^16) *)
+Lemma step_lin w m a b : w <= 16 -> a < 2 ^ 16 ->
+  step w m (a + 2 ^ 16 * b) = step w m a + step w m (2 ^ 16 * b).
+Proof.
+  intros Hw Ha. unfold step.
+  pose proof (land_cat 16 a b m Ha) as E1.
+  pose proof (land_cat 16 0 b m ltac:(reflexivity)) as E2. rewrite N.add_0_l in E2.
+  rewrite N.land_0_l, N.add_0_l in E2.
+  rewrite (shiftr_cat 16 a b w Hw).
+  pose proof (shiftr_cat 16 0 b w Hw) as E3. rewrite N.add_0_l, N.shiftr_0_l, N.add_0_l in E3.
+  assert (Hs : N.shiftr a w < 2 ^ (16 - w)).
+  { rewrite N.shiftr_div_pow2. apply N.div_lt_upper_bound; [apply N.pow_nonzero; discriminate|].
+    rewrite <- N.pow_add_r. replace (w + (16 - w)) with 16 by lia. exact Ha. }
+  pose proof (land_cat (16 - w) (N.shiftr a w) b m Hs) as E4.
+  pose proof (land_cat (16 - w) 0 b m ltac:(apply N.neq_0_lt_0, N.pow_nonzero; discriminate)) as E5.
+  rewrite N.add_0_l, N.land_0_l, N.add_0_l in E5.
+  rewrite E1, E2, E3, E4, E5. lia.
+Qed.
+
+(* ---- exhaustive checks over one half ---- *)
+Definition allb (n : N) (P : N -> bool) : bool :=
+  snd (N.iter n (fun p => (fst p + 1, snd p && P (fst p))) (0, true)).
+
+Lemma allb_spec n P : allb n P = true -> forall a, a < n -> P a = true.
+Proof.
+  unfold allb. revert P. induction n as [|n IH] using N.peano_ind; intros P H a Ha; [lia|].
+  rewrite N.iter_succ in H.
+  assert (F : forall k, fst (N.iter k (fun p => (fst p + 1, snd p && P (fst p))) (0, true)) = k).
+  { induction k as [|k IHk] using N.peano_ind; [reflexivity|]. rewrite N.iter_succ. cbn [fst]. lia. }
+  cbn [snd] in H. apply andb_true_iff in H as [H1 H2]. rewrite F in H2.
+  destruct (N.eq_dec a n) as [->|Hne]; [exact H2|]. apply IH; [exact H1|lia].
+Qed.
+
+Definition f1 (x : N) := step 1 m1 x.
+Definition f2 (x : N) := step 2 m2 (f1 x).
+Definition f3 (x : N) := step 4 m4 (f2 x).
+Definition f4 (x : N) := step 8 m8 (f3 x).
+
+Definition H16 : N := 65536.
+
+Definition lo_ok (a : N) : bool :=
+  (f1 a <? H16) && (f2 a <? H16) && (f3 a <? H16) && (f4 a =? N.of_nat (rank a 16 0)).
+Definition hi_ok (b : N) : bool :=
+  let x := H16 * b in
+  (f1 x mod H16 =? 0) && (f2 x mod H16 =? 0) && (f3 x mod H16 =? 0)
+  && (f4 x =? H16 * N.of_nat (rank b 16 0)).
+
+Lemma lo_all : allb H16 lo_ok = true.
+Proof. vm_compute. reflexivity. Qed.
+Lemma hi_all : allb H16 hi_ok = true.
+Proof. vm_compute. reflexivity. Qed.
+
+Lemma mult_form x : x mod H16 = 0 -> x = 2 ^ 16 * (x / H16).
+Proof. intros H. change (2 ^ 16) with H16. pose proof (N.div_mod x H16 ltac:(discriminate)). lia. Qed.
+
+Lemma f4_split a b : a < H16 -> b < H16 ->
+  f4 (a + H16 * b) = N.of_nat (rank a 16 0) + H16 * N.of_nat (rank b 16 0).
+Proof.
+  intros Ha Hb.
+  pose proof (allb_spec _ _ lo_all a Ha) as La. pose proof (allb_spec _ _ hi_all b Hb) as Lb.
+  unfold lo_ok in La. unfold hi_ok in Lb. cbv zeta in Lb.
+  repeat (apply andb_true_iff in La as [La ?]). repeat (apply andb_true_iff in Lb as [Lb ?]).
+  repeat match goal with
+         | H : (_ <? _) = true |- _ => apply N.ltb_lt in H
+         | H : (_ =? _) = true |- _ => apply N.eqb_eq in H
+         end.
+  assert (E1 : f1 (a + H16 * b) = f1 a + f1 (H16 * b))
+    by (apply (step_lin 1 m1 a b); [lia|exact Ha]).
+  assert (E2 : f2 (a + H16 * b) = f2 a + f2 (H16 * b)).
+  { unfold f2. rewrite E1, (mult_form (f1 (H16 * b))) by assumption.
+    apply (step_lin 2 m2); [lia|assumption]. }
+  assert (E3 : f3 (a + H16 * b) = f3 a + f3 (H16 * b)).
+  { unfold f3. rewrite E2, (mult_form (f2 (H16 * b))) by assumption.
+    apply (step_lin 4 m4); [lia|assumption]. }
+  unfold f4 at 1. rewrite E3, (mult_form (f3 (H16 * b))) by assumption.
+  rewrite (step_lin 8 m8) by (lia || assumption).
+  rewrite <- (mult_form (f3 (H16 * b))) by assumption.
+  fold (f4 a). fold (f4 (H16 * b)). congruence.
+Qed.
+
+(* ---- the number of set bits of a + 2^16 b ---- *)
+Lemma rank_add u x y i : rank u (x + y) i = (rank u x i + rank u y (i + N.of_nat x))%nat.
+Proof.
+  revert i; induction x as [|x IH]; intros i.
+  - cbn. replace (i + 0) with i by lia. reflexivity.
+  - cbn [rank Nat.add]. rewrite IH. replace (i + 1 + N.of_nat x) with (i + N.of_nat (S x)) by lia. lia.
+Qed.
+
+Lemma rank_ext u v cnt i j :
+  (forall x, (x < cnt)%nat -> N.testbit u (i + N.of_nat x) = N.testbit v (j + N.of_nat x)) ->
+  rank u cnt i = rank v cnt j.
+Proof.
+  revert i j; induction cnt as [|c IH]; intros i j H; [reflexivity|]. cbn [rank].
+  pose proof (H 0%nat ltac:(lia)) as H0. rewrite !N.add_0_r in H0. rewrite H0. f_equal.
+  apply IH. intros x Hx. specialize (H (S x) ltac:(lia)).
+  replace (i + 1 + N.of_nat x) with (i + N.of_nat (S x)) by lia.
+  replace (j + 1 + N.of_nat x) with (j + N.of_nat (S x)) by lia. exact H.
+Qed.
+
+Lemma rank_split a b : a < H16 ->
+  rank (a + H16 * b) 32 0 = (rank a 16 0 + rank b 16 0)%nat.
+Proof.
+  intros Ha. change 32%nat with (16 + 16)%nat. rewrite rank_add. f_equal.
+  - apply rank_ext. intros x Hx. change H16 with (2 ^ 16). rewrite cat_bits by exact Ha.
+    destruct (N.ltb_spec (0 + N.of_nat x) 16); [reflexivity|lia].
+  - apply rank_ext. intros x Hx. change H16 with (2 ^ 16). rewrite cat_bits by exact Ha.
+    destruct (N.ltb_spec (0 + N.of_nat 16 + N.of_nat x) 16); [lia|]. f_equal. lia.
+Qed.
+
+Lemma rank_le u cnt i : (rank u cnt i <= cnt)%nat.
+Proof. revert i; induction cnt as [|c IH]; intros i; cbn; [lia|]. specialize (IH (i + 1)). destruct (N.testbit u i); lia. Qed.
+
 Lemma popCount_correct u : u < 2 ^ 32 -> popCount u = N.of_nat (rank u 32 0).
-Proof. Admitted.
+Proof.
+  intros Hu. set (a := u mod H16). set (b := u / H16).
+  assert (Ha : a < H16) by (apply N.mod_lt; discriminate).
+  assert (Hb : b < H16) by (apply N.div_lt_upper_bound; [discriminate|exact Hu]).
+  assert (E : u = a + H16 * b) by (pose proof (N.div_mod u H16 ltac:(discriminate)); unfold a, b; lia).
+  rewrite E, rank_split by exact Ha.
+  change (popCount (a + H16 * b)) with (step 16 m16 (f4 (a + H16 * b))).
+  rewrite f4_split by assumption.
+  pose proof (rank_le a 16 0). pose proof (rank_le b 16 0).
+  set (pa := N.of_nat (rank a 16 0)) in *. set (pb := N.of_nat (rank b 16 0)) in *.
+  assert (Hpa : pa < H16) by (unfold pa, H16; lia). assert (Hpb : pb < H16) by (unfold pb, H16; lia).
+  unfold step. change m16 with (N.ones 16). rewrite !N.land_ones, N.shiftr_div_pow2.
+  change (2 ^ 16) with H16.
+  rewrite (N.mul_comm H16 pb), N.mod_add, N.div_add, (N.mod_small pa), (N.div_small pa), N.add_0_l,
+    (N.mod_small pb) by (assumption || discriminate).
+  unfold pa, pb. lia.
+Qed.
